@@ -12,6 +12,7 @@ import (
 	"fmt"
 	"io"
 	"math/rand"
+	"runtime/debug"
 	"sort"
 	"strings"
 	"time"
@@ -890,6 +891,32 @@ func (e *exec) receiverScript(written []byte) ([]byte, bool) {
 
 // ---- running one execution
 
+// guard is core.Case.Guard with the class key narrowed by where in the
+// negotiation the panic happened, so that two different nil-function calls in
+// negotiateFeatures do not share a key.
+func (e *exec) guard(f func()) (panicked bool) {
+	defer func() {
+		if r := recover(); r != nil {
+			panicked = true
+			st := string(debug.Stack())
+			ctx := "other"
+			if e.cfg.Role == "initiator" && e.nLists == 1 && e.state()&bSecure == 0 {
+				for i := range e.cfg.Feats {
+					f := &e.cfg.Feats[i]
+					a, inLast := e.last[f.Space]
+					if f.Space == nsStartTLS && f.Info && !(inLast && a.eligAtAd) {
+						ctx = "forced-starttls-informational"
+					}
+				}
+			}
+			key := core.PanicKey("constructor", r, st) + ":" + e.cfg.Role + ":" + ctx
+			e.c.Violate(key, "panic in constructor: %v\n%s\ntranscript:\n  %s", r, core.TrimStack(st), strings.Join(e.log, "\n  "))
+		}
+	}()
+	f()
+	return false
+}
+
 // maxNegotiateCalls bounds one execution; see onNegotiate.
 const maxNegotiateCalls = 100
 
@@ -951,7 +978,7 @@ func runOnce(c *core.Case, cfg *Cfg) *exec {
 	var err error
 	ctx := context.Background()
 	aborted := false
-	panicked := c.Guard("constructor", func() {
+	panicked := e.guard(func() {
 		defer func() {
 			// only the monitor's own abort is recovered here; any other panic
 			// travels on to Guard with its stack intact
